@@ -14,6 +14,16 @@ def run(spec, args, kwargs):
     h = engine.build(spec)
     harness.DETAIL.clear()
     harness.CONCRETE[0] = True
+    del harness.UNMODELLED[:]
+    out = _run(spec, args, kwargs, h)
+    if harness.UNMODELLED and spec.get('kind') != 'direct':
+        # whatever happened, it happened after the code under test used something a contract stub does not model
+        return dict(reproduced=False, inconclusive='contract stub: %s not modelled' % ', '.join(sorted(set(harness.UNMODELLED))[:4]))
+    return out
+
+
+def _run(spec, args, kwargs, h):
+    from vp import harness
     out = dict(reproduced=False)
     if spec.get('kind') == 'direct':
         # direct (z3x) obligations provide their own concrete replay
